@@ -166,6 +166,9 @@ class HTTP(BaseComponent):
             self._clients.pop(sock, None)
             res.done = True
         elif res.stream and res.body:
+            if isinstance(res.body, list):
+                # a sized (str, bytes or list) body sent as a stream
+                res.body = (part for part in res.body)
             try:
                 data = next(res.body)
                 while not data:  # Skip over any null byte sequences
